@@ -54,6 +54,7 @@ const OPS: &[(&str, u8)] = &[
     ("fn dN(x, x) {\nprint(x + 0)\n}\ndN(K, K)", 5),
     ("gN := fn (x, [x]) {\nprint(x + 0)\n}\ngN(K, [K])", 5),
     ("gN := fn (x, y) {\nprint(x + y)\n}\ngN(K, K)", 5),
+    ("print({x}.x + 0)", 0),
     ("gN := fn (x, x) {\n}\ngN(K, K)", 5),
     ("gN := fn (_, x, x) {\n}\ngN(K, K, K)", 5),
     ("fn dN(_, x, x) {\n}\ndN(K, K, K)", 5),
